@@ -34,6 +34,9 @@ def run(ctx):
         tr = os.path.join(ctx.work, "clobber.ndjson")
         ctx.record("record-lib", ["-scenario", "clobber", "-seed", seed, "-runs", "40" if thorough else "10"], tr)
         ctx.check_trace("Trace_Lib", "Trace_Lib.cfg", tr, "trace-clobber", must_have=("Plant", "Flush", "Exec", "Close"))
+        tr = os.path.join(ctx.work, "overlap.ndjson")
+        ctx.record("record-lib", ["-scenario", "overlap", "-seed", seed, "-runs", "18" if thorough else "6"], tr)
+        ctx.check_trace("Trace_Lib", "Trace_Lib.cfg", tr, "trace-overlapping-flushes", must_have=("FlushOverlap", "Flush", "Exec"))
         tr = os.path.join(ctx.work, "small.ndjson")
         ctx.record("record-lib", ["-scenario", "small", "-seed", seed, "-runs", "12" if thorough else "4"], tr)
         ctx.check_trace("Trace_Lib", "Trace_Lib.cfg", tr, "trace-small-hashed", must_have=("Exec",))
